@@ -75,6 +75,29 @@ def main(path):
         for p, v in sorted(snap.items()):
             if v[0] == 'F':
                 print('  %s %o %r' % (p, v[2], v[1][:200]))
+    elif kind == 'cli-sentinel':
+        common.build(('rq', 'shim'))
+        import shutil
+        import fsmon
+        sentinel = os.path.join(d, 'sentinel')
+        shutil.rmtree(sentinel, ignore_errors=True)
+        root = os.path.join(sentinel, 'lvl1', 'ws')
+        os.makedirs(os.path.join(sentinel, 'abs'))
+        os.makedirs(os.path.join(sentinel, 'lvl1'), exist_ok=True)
+        for pth in ('x', 'lvl1/x', 'abs/x', 'lvl1/f'):
+            open(os.path.join(sentinel, pth), 'wb').write(b'decoy1\ndecoy2\ndecoy3\n')
+        ws.make_ws(root, {'f': (b'f0\nf1\nf2\n', 0o644), 'g0': (b'g\n', 0o644)}, {'p1.patch': common.s2b(case['patch'])}, case['series'])
+        log = os.path.join(d, 'fslog')
+        before = ws.snapshot(sentinel, skip=())
+        o = ws.run_rq(root, ['-a', '-q'], threads=case.get('threads', 1), preload_env=fsmon.env(log))
+        after = ws.snapshot(sentinel, skip=())
+        print('--- patch:\n%s--- series: %s (name after stripping: %s, escapes: %s)' % (case['patch'], case['series'], case.get('name_after_strip'), case.get('escapes')))
+        print('--- recorded:', json.dumps(case.get('observed')))
+        print('--- observed now: exit=%s' % o.cls)
+        print('stderr:', o.err.decode(errors='replace')[-400:])
+        ch = sorted(x for x in set(before) | set(after) if before.get(x) != after.get(x) and not x.startswith('lvl1/ws/'))
+        print('changed outside the workspace:', ch)
+        print('calls outside the workspace:', [e for e in fsmon.read_log(log, root) if '/sentinel/' in e[2] and '/lvl1/ws' not in e[2]][:10])
     else:
         print(json.dumps(doc, indent=1))
     return 0
